@@ -460,6 +460,8 @@ class Symbols:
                         return abs(_num(args[0]))
                     if fn.id == "bool" and len(args) == 1:
                         return bool(args[0])
+                    if fn.id == "bytes" and len(args) == 1 and (isinstance(args[0], int) and not isinstance(args[0], bool) and 0 <= args[0] <= 4096 or isinstance(args[0], (tuple, list)) and all(isinstance(x, int) and 0 <= x < 256 for x in args[0]) or isinstance(args[0], bytes)):
+                        return bytes(args[0])
                 except Exception:
                     return Unknown
             if isinstance(fn, (ast.Name, ast.Attribute)):
